@@ -411,7 +411,7 @@ def _strategy(case, ctx, g):
     n = X.shape[0]
     sd = {"max_cholesky_size": case["max_cholesky_size"], "fast_pred_var": case["fast_pred_var"], "sgpr_diagonal_correction": case["sgpr_diagonal_correction"], "use_toeplitz": case["use_toeplitz"]}
     iterative = case["max_cholesky_size"] == 0
-    with util.settings_ctx(sd, tight=True, n=2 * n), torch.no_grad():
+    with util.settings_ctx(sd, tight=True, n=2 * n, predict_only=True), torch.no_grad():
         try:
             out = m(xs)
             mean, cov = out.mean, out.covariance_matrix
